@@ -34,8 +34,8 @@ import (
 
 func init() {
 	fw.Register(&fw.Check{
-		ID: "C20",
-		Rule: "cases (binary built with -race; GORACE halt_on_error=0, reports counted from the log and deduplicated by stack pair): (1) stress: G in {2,8,32} goroutines x GOMAXPROCS in {1,2,4,16} issue interleaved parse / apply / compose / transform / resolve / create / read / lookup calls against ONE shared instance of each component on distinct inputs; every result (canonical JSON or error text) is compared with the same call made sequentially on fresh instances; (2) linearizability: concurrent Add/ForNamespace on the namespace provider and Register/CreateClientVersion on the client registry over 3..6 keys with a unique provider / factory per write, recorded at the client boundary with one monotonic clock and checked per key by porcupine against a sequential map model (duplicate Register => 'duplicate'); checker timeout => inconclusive. Evidence reports calls per component, overlapping call pairs from different goroutines, and the outcome split of lookups that raced with their key's registration. distinct = (G, GOMAXPROCS, call-mix) for stress and distinct per-key history shapes for linearizability.",
+		ID:          "C20",
+		Rule:        "cases (binary built with -race; GORACE halt_on_error=0, reports counted from the log and deduplicated by stack pair): (1) stress: G in {2,8,32} goroutines x GOMAXPROCS in {1,2,4,16} issue interleaved parse / apply / compose / transform / resolve / create / read / lookup calls against ONE shared instance of each component on distinct inputs; every result (canonical JSON or error text) is compared with the same call made sequentially on fresh instances; (2) linearizability: concurrent Add/ForNamespace on the namespace provider and Register/CreateClientVersion on the client registry over 3..6 keys with a unique provider / factory per write, recorded at the client boundary with one monotonic clock and checked per key by porcupine against a sequential map model (duplicate Register => 'duplicate'); checker timeout => inconclusive. Evidence reports calls per component, overlapping call pairs from different goroutines, and the outcome split of lookups that raced with their key's registration. distinct = (G, GOMAXPROCS, call-mix) for stress and distinct per-key history shapes for linearizability.",
 		Assumptions: []string{"the Go race detector sees only executed accesses under the schedules the runtime produced", "porcupine's checker; harness recorder state is per goroutine"},
 		Require:     []string{"stress-calls", "overlapping-call-pairs", "histories", "linearizable-partitions", "lookup-found-while-racing", "lookup-notfound-while-racing", "register-duplicate-observed"},
 		Workers:     func(string) int { return 6 },
